@@ -133,6 +133,29 @@ impl GenCfg {
             emit_in_andis_rhs: false,
         }
     }
+    /// every node family the builder supports (C04 / C20 registry class)
+    pub fn all() -> GenCfg {
+        let mut c = GenCfg::c02();
+        c.ext = true;
+        c.slices = true;
+        c.spans = true;
+        c.fold_with = true;
+        c.validate = true;
+        c.recover = true;
+        c.nested_delims = true;
+        c.label = true;
+        c.map_err = true;
+        c.memo = true;
+        c.wraps = true;
+        c.rec = true;
+        c.lazy = true;
+        c.state_push = true;
+        c.state_obs = true;
+        c.with_state = true;
+        c.ctx = true;
+        c.emit_in_andis_rhs = true;
+        c
+    }
     pub fn c02() -> GenCfg {
         let mut c = GenCfg::c01();
         c.rep = true;
@@ -631,13 +654,15 @@ impl<'t, 'd> GGen<'t, 'd> {
 
     pub fn gen_rep(&mut self, d: u32, guarded: bool) -> Rep {
         let item = self.consuming(d, guarded);
-        let sep = if self.t.chance(2, 5) {
-            Some(b(if self.t.chance(3, 4) { self.simple_consuming() } else { self.gen(d.min(1), true) }))
+        let has_sep = self.t.chance(2, 5);
+        let (leading, trailing) = if has_sep { (self.t.chance(1, 3), self.t.chance(1, 3)) } else { (false, false) };
+        let sep = if has_sep {
+            // a leading separator is tried before any item: it is then at the start of the repetition
+            let sep_guarded = if leading { guarded } else { true };
+            Some(b(if self.t.chance(3, 4) { self.simple_consuming() } else { self.gen(d.min(1), sep_guarded) }))
         } else {
             None
         };
-        let (leading, trailing) =
-            if sep.is_some() { (self.t.chance(1, 3), self.t.chance(1, 3)) } else { (false, false) };
         let mut lo = self.t.weighted(&[5, 3, 2, 1, 1]) as u8;
         let mut hi = match self.t.weighted(&[5, 1, 2, 2, 1, 1]) {
             0 => None,
